@@ -5,13 +5,16 @@ type RAT[K comparable, V any] struct {
 	length int
 	values map[K][]V
 	idx    map[K]int
+	// written is the number of slots of a key's ring that hold a value
+	written map[K]int
 }
 
 func NewRAT[K comparable, V any](length int) *RAT[K, V] {
 	return &RAT[K, V]{
-		length: length,
-		values: make(map[K][]V),
-		idx:    make(map[K]int),
+		length:  length,
+		values:  make(map[K][]V),
+		idx:     make(map[K]int),
+		written: make(map[K]int),
 	}
 }
 
@@ -61,6 +64,9 @@ func (r *RAT[K, V]) Write(k K, value V) {
 
 	r.idx[k] = idx
 	r.values[k][idx] = value
+	if r.written[k] < r.length {
+		r.written[k]++
+	}
 }
 
 func (r *RAT[K, V]) Values() map[K]V {
@@ -85,7 +91,7 @@ func (r *RAT[K, V]) FindValues(predicate func(V) bool) map[K]V {
 		if found {
 			continue
 		}
-		for i := r.length - 1; i > v; i-- {
+		for i := r.length - 1; i > v && r.written[k] == r.length; i-- {
 			if predicate(r.values[k][i]) {
 				m[k] = r.values[k][i]
 				break
